@@ -16,7 +16,7 @@ from ..codec import canon
 from ..engine import Scenario, stream
 from ..world import SeamGap
 
-FILES = ["inc1", "inc2", "sub/inc3", "/inc/abs1", "/home/sim/inc_home", "inc4", "./inc5", "sub/../inc6"]
+FILES = ["inc1", "inc2", "sub/inc3", "/inc/abs1", "/home/sim/inc_home", "inc4", "./inc5", "sub/../inc6", ""]
 STARTDIRS = [None, "/data", "/inc", "rel", "~"]
 KEYS = ["a", "b", "c", "d", "m", "n"]
 LEAVES = [1, 2, "x", "y", None, True, 2.5, [1, 2], [], "", 0, ["z"]]
